@@ -66,4 +66,11 @@ TEXT.update({
                  'released once with the request parameters and the exception propagates; on success constructed and later destroyed once each. allocate_shared is '
                  'outside the claim (its libstdc++ control-block code exceeded the solver budget).', 'note': NOTE},
 })
+TEXT.update({
+ 'C14': {'text': 'Sequential part: nested temporary_allocators with symbolic allocation sizes (growth included) restore the thread stack exactly. Stack list: '
+                 'the real create/find_unused/clear/destroy, nifty counter and thread-exit detector code runs over per-thread copies of the thread_local variables '
+                 'for every 2-step schedule of 2 threads over {use, initializer scope, thread exit} (+ program exit); schedules are enumerated by the driver, so for '
+                 'this part the solver only executes; two recorded findings (known_findings.json) are reported as KNOWN-FINDING. Instruction-level interleavings '
+                 'of the lock-free list are not explored.', 'note': NOTE + ' Thread-local storage, __cxa_thread_atexit and program exit are modelled (rt.c); counterexamples of the schedule harness are not replayed natively.'},
+})
 NOT_APPLICABLE = {}
